@@ -15,6 +15,91 @@ import (
 	"grol.io/grol/lexer"
 )
 
+// c08Gen: a small deterministic generator of programs from the expression / statement grammar.
+type c08Gen struct{ state uint64 }
+
+func (g *c08Gen) n(k int) int {
+	g.state ^= g.state << 13
+	g.state ^= g.state >> 7
+	g.state ^= g.state << 17
+	return int(g.state % uint64(k))
+}
+
+func (g *c08Gen) pick(xs ...string) string { return xs[g.n(len(xs))] }
+
+func (g *c08Gen) expr(d int) string {
+	if d <= 0 {
+		return g.pick("a", "b", "c", "1", "2.5", "\"s\"", "true", "nil", "x", "f(1)", "a[0]", "m.k")
+	}
+	switch g.n(14) {
+	case 0, 1, 2, 3:
+		op := g.pick("+", "-", "*", "/", "%", "==", "!=", "<", ">=", "&&", "||", "|", "&", "^", "<<", ">>")
+		if op == "+" {
+			// a parenthesised + on the right of a + is the recorded plus-chain finding: keep the right operand atomic
+			return g.operand(d-1) + " + " + g.expr(0)
+		}
+		return g.operand(d-1) + " " + op + " " + g.operand(d-1)
+	case 4:
+		return g.pick("-", "!", "~") + g.operand(d-1)
+	case 5:
+		return "f(" + g.expr(d-1) + ", " + g.expr(d-1) + ")"
+	case 6:
+		return g.operand(d-1) + "[" + g.expr(d-1) + "]"
+	case 7:
+		return "[" + g.expr(d-1) + ", " + g.expr(d-1) + "]"
+	case 8:
+		return "{" + g.expr(0) + ": " + g.expr(d-1) + "}"
+	case 9:
+		return "if " + g.expr(d-1) + " { " + g.expr(d-1) + " } else { " + g.expr(d-1) + " }"
+	case 10:
+		return g.pick("x => ", "(x, y) => ", "() => ") + g.expr(d-1)
+	case 11:
+		return "func(p) { " + g.expr(d-1) + " }"
+	case 12:
+		return g.operand(d-1) + "[" + g.expr(0) + ":" + g.pick("", g.expr(0)) + "]"
+	default:
+		return g.expr(d - 1)
+	}
+}
+
+// operand: an expression, parenthesised when it is not atomic (so that the intended structure is unambiguous)
+func (g *c08Gen) operand(d int) string {
+	e := g.expr(d)
+	if strings.ContainsAny(e, " ") {
+		return "(" + e + ")"
+	}
+	return e
+}
+
+// bareExpr: an expression used as a statement; one that starts with a prefix operator is left out (the recorded
+// prefix-operator-statement finding).
+func (g *c08Gen) bareExpr(d int) string {
+	for {
+		if e := g.expr(d); !strings.ContainsAny(e[:1], "-!~+") && !strings.HasPrefix(e, "(-") && !strings.HasPrefix(e, "(!") && !strings.HasPrefix(e, "(~") {
+			return e
+		}
+	}
+}
+
+func (g *c08Gen) stmt(d int) string {
+	switch g.n(9) {
+	case 0, 1, 2:
+		return g.pick("x", "y", "z") + " = " + g.expr(d)
+	case 3:
+		return g.bareExpr(d)
+	case 4:
+		return "if " + g.expr(d-1) + " {\n" + g.stmt(d-1) + "\n}"
+	case 5:
+		return "for i = 0:3 {\n" + g.stmt(d-1) + "\n}"
+	case 6:
+		return "func g" + g.pick("1", "2") + "(p, q) {\n" + g.stmt(d-1) + "\n" + g.bareExpr(d-1) + "\n}"
+	case 7:
+		return g.pick("x++", "y--", "println("+g.expr(d-1)+")")
+	default:
+		return g.pick("// note", "/* note */ ") + g.pick("", "x = "+g.expr(0))
+	}
+}
+
 func c08Try(input string, lineMode bool) (outcome string, panicMsg string) {
 	defer func() {
 		if r := recover(); r != nil {
@@ -129,6 +214,44 @@ func TestVerifBoundedFrontEndTotal(t *testing.T) {
 		}
 	}
 	recb(nil)
+	// grammar-generated programs of deeper nesting, whole and with one byte deleted / replaced / duplicated at every
+	// position (deterministic; more of them in the thorough tier): parse, then print every tree that is returned
+	{
+		nGen := 60
+		if thorough {
+			nGen = 1500
+		}
+		gg := &c08Gen{state: 0xD1B54A32D192ED03}
+		repl := []byte{'(', ')', '{', '}', '"', '`', '/', '*', '-', '=', '>', ',', ':', '.', ' ', '\n', 0, 'a', '1'}
+		tryAll := func(input string) {
+			for _, lm := range []bool{false, true} {
+				evals++
+				o, msg := c08Try(input, lm)
+				outcomes[o]++
+				if o == "panic" || o == "nil-tree" {
+					fails++
+					if fails <= 5 {
+						fmt.Printf("BOUNDED-FAIL input %q lineMode=%v: %s %s\n", input, lm, o, msg)
+					}
+				}
+			}
+		}
+		for i := 0; i < nGen; i++ {
+			var sb strings.Builder
+			for k, ns := 0, 1+gg.n(3); k < ns; k++ {
+				sb.WriteString(gg.stmt(3))
+				sb.WriteString("\n")
+			}
+			src := sb.String()
+			tryAll(src)
+			for pos := 0; pos < len(src); pos++ {
+				tryAll(src[:pos] + src[pos+1:])
+				tryAll(src[:pos] + string(repl[(pos+i)%len(repl)]) + src[pos+1:])
+				tryAll(src[:pos] + src[pos:pos+1] + src[pos:])
+			}
+		}
+		desc += fmt.Sprintf(", %d grammar-generated programs of nesting depth 3 with every one-byte deletion, replacement and duplication", nGen)
+	}
 	fmt.Printf("BOUNDED evaluations=%d distinct=%d exhaustive=true bound=%q\n", evals, evals,
 		fmt.Sprintf("%s (joined with and without spaces) and all byte strings of length 1..3 over %d bytes, both lexer modes; outcomes %v", desc, len(alphabet), outcomes))
 	if fails > 0 {
